@@ -108,3 +108,22 @@ def compare_blocks(a, b, tol):
                 continue  # near-tie: legitimately rounding dependent
             return "P2[%d]: %r != %r" % (i, x, y)
     return None
+
+
+
+def process_state():
+    """interpreter-wide state that no library call may leave changed: whatever it is set to decides how *later* calls of any
+    bandit behave (an armed numpy error mode turns an overflow into an exception, the global generator feeds scikit-learn
+    estimators built with random_state=None, ...)"""
+    import hashlib
+    import logging
+    import numpy as np
+    st = np.random.get_state()
+    return {"numpy error mode": sorted(np.geterr().items()),
+            "numpy global generator": hashlib.md5(st[1].tobytes() + repr(st[2:]).encode()).hexdigest(),
+            "numpy print options": repr(sorted((k, repr(v)) for k, v in np.get_printoptions().items())),
+            "logging root": (logging.root.level, len(logging.root.handlers))}
+
+
+def process_state_diff(a, b):
+    return [k for k in a if a[k] != b[k]]
